@@ -123,6 +123,7 @@ def units(tier, seed):
         for b in range(nbf):
             out.append({"kind": "import", "sid": "table" if fam == "tables" else "list", "vocab": fam, "n": n, "block": b,
                         "nblocks": nbf, "name": f"import/family/{fam}<={n}#{b}/{nbf}"})
+    out.append({"kind": "slice_marks", "name": "parse_slice/marks at the open top level, two same-named schemas"})
     for cid in ("ctx_bq", "ctx_li", "ctx_bq_any", "ctx_alt", "ctx_grp", "ctx_gp", "ctx_bq_ga", "ctx_li_ga", "ctx_gp_ga",
                 "ctx_bq_eq", "ctx_li_eq"):
         out.append({"kind": "context", "sid": cid, "n": 6 if q else 7, "name": f"context/{cid}"})
@@ -184,7 +185,10 @@ def check_import(c, html, res, size):
     res.transitions += 1
     engine.kick(2)
     try:
-        sl = DOMParser.from_schema(c.schema).parse_slice(lxml_fragment(html))
+        parser = DOMParser.from_schema(c.schema)
+        dom = lxml_fragment(html)
+        parser.parse(dom)  # parse() rewrites text into pseudo elements in place; parse_slice alone ignores raw text
+        sl = parser.parse_slice(dom)
         sj = sl.content.to_json() or []
     except engine.Watchdog:
         res.violate("c19.parse_slice.hang", case, "did not terminate within 2 s", size=size)
@@ -202,6 +206,51 @@ def check_import(c, html, res, size):
                 res.violate("c19.parse_slice.invalid-inner-node", case, p, size=size)
                 break
     return j
+
+
+def check_slice_marks(res):
+    """parse_slice of marked inline content that sits directly at the (parent-less) top of the slice, under the basic
+    schema and under a schema with the SAME node / mark names in which no textblock admits marks - alternating in one
+    process.  No-marks variant: no text of the slice may carry a mark (what the basic schema keeps is only counted:
+    fidelity of imports is not claimed by C19)."""
+    from prosemirror.model import DOMParser
+
+    tags = {"em": "em", "strong": "strong", "code": "code"}
+    inputs = []
+    for t1 in tags:
+        inputs.append((f"<{t1}>a</{t1}>", [[t1]]))
+        for t2 in tags:
+            if t1 != t2:
+                inputs.append((f"<{t1}><{t2}>a</{t2}></{t1}>", [[t1, t2]]))
+                inputs.append((f"<{t1}>a</{t1}><{t2}>b</{t2}>", [[t1], [t2]]))
+    inputs.append(("<em>a</em> b", [["em"], []]))
+    cs = [adapters.ctx("basic"), adapters.ctx("basic_nomarks")]
+    parsers = {c.id: DOMParser.from_schema(c.schema) for c in cs}
+    for order in ((0, 1, 0), (1, 0, 1)):
+        for html, marks in inputs:
+            for k in order:
+                c = cs[k]
+                case = {"schema": c.id, "html": html, "kind": "slice_marks"}
+                res.transitions += 1
+                res.states += 1
+                try:
+                    dom = lxml_fragment(html)
+                    parsers[c.id].parse(dom)  # (also turns text into the pseudo elements parse_slice expects)
+                    sl = parsers[c.id].parse_slice(dom)
+                    sj = sl.content.to_json() or []
+                except Exception as e:  # noqa: BLE001
+                    res.violate("c19.parse_slice.raises", case, common.exc_str(e),
+                                fingerprint="c19.parse_slice.raises:" + common.exc_fp(e), size=len(html))
+                    continue
+                res.validated += 1
+                got = [sorted(m["type"] for m in nd.get("marks") or []) for nd in sj if nd.get("type") == "text"]
+                if c.id == "basic":
+                    res.outcome("slice_marks:basic:" + ("kept" if got == [sorted(ms) for ms in marks] else "other"))
+                elif any(got):
+                    # no node type of this schema admits a mark on text: such content fits nowhere ("marks in places
+                    # that forbid them" must not survive the import)
+                    res.violate("c19.parse_slice.forbidden-marks", case, got, "no marks", size=len(html))
+    res.scopes.append({"unit": "slice_marks", "inputs": len(inputs), "completed": True})
 
 
 # ---------------------------------------------------------------------------
@@ -501,6 +550,8 @@ def run_unit(u):
                         res.sample({"schema": c.id, "html": html})
                 idx += 1
         res.scopes.append({"unit": u["name"], "inputs": n, "completed": True})
+    elif u["kind"] == "slice_marks":
+        check_slice_marks(res)
     elif u["kind"] == "context":
         c = adapters.ctx(u["sid"])
         check_context(c, res, u["n"])
@@ -523,7 +574,9 @@ def replay(case):
     res = engine.UnitResult(PROPERTY_ID)
     c = adapters.ctx(case["schema"])
     engine.arm()
-    if "doc" in case:
+    if case.get("kind") == "slice_marks":
+        check_slice_marks(res)
+    elif "doc" in case:
         check_export(c, case["doc"], res)
     elif "context" in case:
         check_context(c, res, 5)
